@@ -213,8 +213,8 @@ pub struct Ctx {
 impl Ctx {
     fn bump(&mut self, k: &str) { *self.stats.entry(k.to_string()).or_insert(0) += 1; }
     fn fail(&mut self, cls: &str, ty: &str, known: &str, msg: String) {
-        // a failure of a type that reproduces a recorded finding carries the finding's class
-        let c = if known.is_empty() { cls.to_string() } else { format!("{}-{}", cls, known) };
+        // `known` = KnownClass of a recorded finding that explains this failure (only passed by the select-by-db_keys path)
+        let c = if known.is_empty() { cls.to_string() } else { format!("type-roundtrip-{}", known) };
         if self.oracle.iter().filter(|l| l.starts_with(&format!("{} type={}", c, ty))).count() < 3 {
             self.oracle.push(format!("{} type={} {}", c, ty, msg));
         }
@@ -241,15 +241,37 @@ fn elem_lines(o: &Obs, except: i64) -> Vec<String> {
 }
 
 fn read_back<T: Ut + DbType<ValueType = T>, S: StorageData>(db: &DbImpl<S>, ctx: &mut Ctx, ids: &[DbId], expected: &[T], what: &str, variant: &str) {
+    // the documented way: select().elements::<T>() (keys = T::db_keys()); a failure of a type in the KnownClass of a recorded
+    // finding is attributed to it on THIS path only ...
+    read_back_with::<T, S>(db, ctx, ids, expected, what, variant, false);
+    // ... and every such type must still read back through a select of all keys
+    if !T::KNOWN.is_empty() { read_back_with::<T, S>(db, ctx, ids, expected, what, variant, true); }
+}
+
+fn read_back_with<T: Ut + DbType<ValueType = T>, S: StorageData>(db: &DbImpl<S>, ctx: &mut Ctx, ids: &[DbId], expected: &[T], what: &str, variant: &str, all_keys: bool) {
+    let known = if all_keys { "" } else { T::KNOWN };
     let inputs = || expected.iter().map(|v| format!("{:?}", v)).collect::<Vec<_>>().join(" ;; ");
-    let q = QueryBuilder::select().elements::<T>().ids(ids.to_vec()).query();
+    let q = if all_keys { QueryBuilder::select().ids(ids.to_vec()).query() } else { QueryBuilder::select().elements::<T>().ids(ids.to_vec()).query() };
     let keys = q.keys.clone();
     let res = match catch_unwind(AssertUnwindSafe(|| db.exec(q))) {
         Ok(Ok(r)) => r,
-        Ok(Err(e)) => { ctx.fail("type-roundtrip-error", T::NAME, T::KNOWN, format!("{} db={} select().elements::<T>().ids({:?}) with keys {:?} failed: {} values=[{}]", what, variant, ids, keys, errs(&e), inputs())); return; }
-        Err(_) => { ctx.fail("type-roundtrip-panic", T::NAME, T::KNOWN, format!("{} db={} select panicked values=[{}]", what, variant, inputs())); return; }
+        Ok(Err(e)) => { ctx.fail("type-roundtrip-error", T::NAME, known, format!("{} db={} select().elements::<T>().ids({:?}) with keys {:?} failed: {} values=[{}]", what, variant, ids, keys, errs(&e), inputs())); return; }
+        Err(_) => { ctx.fail("type-roundtrip-panic", T::NAME, known, format!("{} db={} select panicked values=[{}]", what, variant, inputs())); return; }
     };
-    // model tie: from_element of the selected pairs
+    // model tie: the pairs the select returns (both revisions of db_keys; checks/c22.py keeps the one /repo implements) ...
+    if T::in_model() && !all_keys {
+        for el in &res.elements {
+            if let Ok(all) = db.exec(QueryBuilder::select().ids(el.id).query()) {
+                if let Some(a) = all.elements.first() {
+                    for f in ["0", "1"] {
+                        ctx.cases.push(format!("derive select {} {} {}", f, T::desc(), show_kvs(&a.values)));
+                        ctx.imp.push(show_kvs(&el.values));
+                    }
+                }
+            }
+        }
+    }
+    // ... and from_element of the selected pairs
     if T::in_model() {
         for el in &res.elements {
             ctx.cases.push(format!("derive fromelement {} {} {}", T::desc(), ihex(el.id.0), show_kvs(&el.values)));
@@ -258,11 +280,11 @@ fn read_back<T: Ut + DbType<ValueType = T>, S: StorageData>(db: &DbImpl<S>, ctx:
     }
     let back: Vec<T> = match catch_unwind(AssertUnwindSafe(|| res.try_into())) {
         Ok(Ok(b)) => b,
-        Ok(Err(e)) => { let e: DbError = e; ctx.fail("type-roundtrip-error", T::NAME, T::KNOWN, format!("{} db={} conversion of the selected elements failed: {} (selected keys {:?}) values=[{}]", what, variant, errs(&e), keys, inputs())); return; }
-        Err(_) => { ctx.fail("type-roundtrip-panic", T::NAME, T::KNOWN, format!("{} db={} conversion panicked values=[{}]", what, variant, inputs())); return; }
+        Ok(Err(e)) => { let e: DbError = e; ctx.fail("type-roundtrip-error", T::NAME, known, format!("{} db={} conversion of the selected elements failed: {} (selected keys {:?}) values=[{}]", what, variant, errs(&e), keys, inputs())); return; }
+        Err(_) => { ctx.fail("type-roundtrip-panic", T::NAME, known, format!("{} db={} conversion panicked values=[{}]", what, variant, inputs())); return; }
     };
     if back.len() != expected.len() {
-        ctx.fail("type-roundtrip-mismatch", T::NAME, T::KNOWN, format!("{} db={} {} elements read, {} expected", what, variant, back.len(), expected.len()));
+        ctx.fail("type-roundtrip-mismatch", T::NAME, known, format!("{} db={} {} elements read, {} expected", what, variant, back.len(), expected.len()));
         return;
     }
     for ((b, v), id) in back.iter().zip(expected).zip(ids) {
@@ -272,7 +294,7 @@ fn read_back<T: Ut + DbType<ValueType = T>, S: StorageData>(db: &DbImpl<S>, ctx:
         if T::HAS_ID && b.get_id() != Some(QueryId::Id(*id)) { d.push(format!("db_id: {:?} read, Some({}) expected", b.get_id(), id.0)); }
         if !b.skip_default() { d.push("a skipped field is not its default".into()); }
         if !d.is_empty() {
-            ctx.fail("type-roundtrip-mismatch", T::NAME, T::KNOWN, format!("{} db={} id={} fields=[{}] value={:?} read={:?}", what, variant, id.0, d.join("; "), v, b));
+            ctx.fail("type-roundtrip-mismatch", T::NAME, known, format!("{} db={} id={} fields=[{}] value={:?} read={:?}", what, variant, id.0, d.join("; "), v, b));
         }
     }
 }
@@ -299,9 +321,9 @@ fn run_on<T: Ut + DbType<ValueType = T>, S: StorageData>(db: &mut DbImpl<S>, ctx
             let r = catch_unwind(AssertUnwindSafe(|| db.exec_mut(QueryBuilder::insert().element(&v).query())));
             let id = match r {
                 Ok(Ok(r)) if r.elements.len() == 1 => r.elements[0].id,
-                Ok(Ok(r)) => { ctx.fail("type-roundtrip-error", T::NAME, T::KNOWN, format!("insert db={} returned {} elements value={:?}", variant, r.elements.len(), v)); continue; }
-                Ok(Err(e)) => { ctx.fail("type-roundtrip-error", T::NAME, T::KNOWN, format!("insert db={} failed: {} value={:?}", variant, errs(&e), v)); continue; }
-                Err(_) => { ctx.fail("type-roundtrip-panic", T::NAME, T::KNOWN, format!("insert db={} panicked value={:?}", variant, v)); continue; }
+                Ok(Ok(r)) => { ctx.fail("type-roundtrip-error", T::NAME, "", format!("insert db={} returned {} elements value={:?}", variant, r.elements.len(), v)); continue; }
+                Ok(Err(e)) => { ctx.fail("type-roundtrip-error", T::NAME, "", format!("insert db={} failed: {} value={:?}", variant, errs(&e), v)); continue; }
+                Err(_) => { ctx.fail("type-roundtrip-panic", T::NAME, "", format!("insert db={} panicked value={:?}", variant, v)); continue; }
             };
             ctx.bump("op:insert-element");
             // the stored pairs are the pairs of to_db_values, in order
@@ -312,11 +334,11 @@ fn run_on<T: Ut + DbType<ValueType = T>, S: StorageData>(db: &mut DbImpl<S>, ctx
                         ctx.imp.push(show_kvs(&r.elements[0].values));
                     }
                     if r.elements[0].values != kvs {
-                        ctx.fail("type-roundtrip-mismatch", T::NAME, T::KNOWN, format!("db={} id={} stored pairs {} differ from to_db_values {} value={:?}", variant, id.0, show_kvs(&r.elements[0].values), show_kvs(&kvs), v));
+                        ctx.fail("type-roundtrip-mismatch", T::NAME, "", format!("db={} id={} stored pairs {} differ from to_db_values {} value={:?}", variant, id.0, show_kvs(&r.elements[0].values), show_kvs(&kvs), v));
                     }
                 }
-                Ok(_) => ctx.fail("type-roundtrip-error", T::NAME, T::KNOWN, format!("db={} select ids({}) returned no element", variant, id.0)),
-                Err(e) => ctx.fail("type-roundtrip-error", T::NAME, T::KNOWN, format!("db={} select ids({}) failed: {}", variant, id.0, errs(&e))),
+                Ok(_) => ctx.fail("type-roundtrip-error", T::NAME, "", format!("db={} select ids({}) returned no element", variant, id.0)),
+                Err(e) => ctx.fail("type-roundtrip-error", T::NAME, "", format!("db={} select ids({}) failed: {}", variant, id.0, errs(&e))),
             }
             read_back(db, ctx, &[id], std::slice::from_ref(&v), "single", variant);
             live.push((id, v));
@@ -328,9 +350,9 @@ fn run_on<T: Ut + DbType<ValueType = T>, S: StorageData>(db: &mut DbImpl<S>, ctx
             let r = catch_unwind(AssertUnwindSafe(|| db.exec_mut(QueryBuilder::insert().elements(&vs).query())));
             let ids: Vec<DbId> = match r {
                 Ok(Ok(r)) if r.elements.len() == k => r.ids(),
-                Ok(Ok(r)) => { ctx.fail("type-roundtrip-error", T::NAME, T::KNOWN, format!("batch insert db={} returned {} elements for {} values", variant, r.elements.len(), k)); continue; }
-                Ok(Err(e)) => { ctx.fail("type-roundtrip-error", T::NAME, T::KNOWN, format!("batch insert db={} failed: {} values={:?}", variant, errs(&e), vs)); continue; }
-                Err(_) => { ctx.fail("type-roundtrip-panic", T::NAME, T::KNOWN, format!("batch insert db={} panicked values={:?}", variant, vs)); continue; }
+                Ok(Ok(r)) => { ctx.fail("type-roundtrip-error", T::NAME, "", format!("batch insert db={} returned {} elements for {} values", variant, r.elements.len(), k)); continue; }
+                Ok(Err(e)) => { ctx.fail("type-roundtrip-error", T::NAME, "", format!("batch insert db={} failed: {} values={:?}", variant, errs(&e), vs)); continue; }
+                Err(_) => { ctx.fail("type-roundtrip-panic", T::NAME, "", format!("batch insert db={} panicked values={:?}", variant, vs)); continue; }
             };
             ctx.bump("op:insert-elements-batch");
             read_back(db, ctx, &ids, &vs, "batch", variant);
@@ -347,15 +369,15 @@ fn run_on<T: Ut + DbType<ValueType = T>, S: StorageData>(db: &mut DbImpl<S>, ctx
             let r = catch_unwind(AssertUnwindSafe(|| db.exec_mut(QueryBuilder::insert().element(&v2).query())));
             match r {
                 Ok(Ok(_)) => {}
-                Ok(Err(e)) => { ctx.fail("type-roundtrip-error", T::NAME, T::KNOWN, format!("update db={} id={} failed: {} value={:?}", variant, id.0, errs(&e), v2)); continue; }
-                Err(_) => { ctx.fail("type-roundtrip-panic", T::NAME, T::KNOWN, format!("update db={} id={} panicked value={:?}", variant, id.0, v2)); continue; }
+                Ok(Err(e)) => { ctx.fail("type-roundtrip-error", T::NAME, "", format!("update db={} id={} failed: {} value={:?}", variant, id.0, errs(&e), v2)); continue; }
+                Err(_) => { ctx.fail("type-roundtrip-panic", T::NAME, "", format!("update db={} id={} panicked value={:?}", variant, id.0, v2)); continue; }
             }
             ctx.bump("op:update-through-db_id");
             let after = observe(db);
             let (b, a) = (elem_lines(&before, id.0), elem_lines(&after, id.0));
             if before.node_count != after.node_count || before.elems.len() != after.elems.len() || b != a || before.aliases != after.aliases {
                 let changed: Vec<String> = a.iter().filter(|l| !b.contains(l)).cloned().collect();
-                ctx.fail("type-update-wrong-element", T::NAME, T::KNOWN, format!("db={} update of id={} with {:?}: elements {} -> {}, other elements changed/added: {:?}", variant, id.0, v2, before.elems.len(), after.elems.len(), changed));
+                ctx.fail("type-update-wrong-element", T::NAME, "", format!("db={} update of id={} with {:?}: elements {} -> {}, other elements changed/added: {:?}", variant, id.0, v2, before.elems.len(), after.elems.len(), changed));
             }
             let new = db.exec(QueryBuilder::select().ids(id).query()).map(|r| r.elements.first().map(|e| e.values.clone()).unwrap_or_default()).unwrap_or_default();
             let want = merged_kvs(&old, &v2.to_db_values());
@@ -364,7 +386,7 @@ fn run_on<T: Ut + DbType<ValueType = T>, S: StorageData>(db: &mut DbImpl<S>, ctx
                 ctx.imp.push(show_kvs(&new));
             }
             if new != want {
-                ctx.fail("type-update-wrong-values", T::NAME, T::KNOWN, format!("db={} id={} stored {} expected {} (old {}) value={:?}", variant, id.0, show_kvs(&new), show_kvs(&want), show_kvs(&old), v2));
+                ctx.fail("type-update-wrong-values", T::NAME, "", format!("db={} id={} stored {} expected {} (old {}) value={:?}", variant, id.0, show_kvs(&new), show_kvs(&want), show_kvs(&old), v2));
             }
             let mut expect = v2.clone();
             expect.merge_old(&live[idx].1);
@@ -413,6 +435,13 @@ pub fn run_type<T: Ut + DbType<ValueType = T>>(ctx: &mut Ctx) {
     if ctx.samples.len() < 3 && ctx.rng.chance(1, 4) {
         let v = T::make(&mut ctx.rng.clone());
         ctx.samples.push(format!("{} {} value {:?} -> {}", T::NAME, T::desc(), v, show_kvs(&v.to_db_values())).chars().take(700).collect());
+    }
+    if T::in_model() {
+        let keys = format!("({})", T::db_keys().iter().map(|k| hex(k.to_string().as_bytes())).collect::<Vec<_>>().join(" "));
+        for f in ["0", "1"] {
+            ctx.cases.push(format!("derive keys {} {}", f, T::desc()));
+            ctx.imp.push(keys.clone());
+        }
     }
     let n = ctx.n;
     match DbMemory::new("c22") {
